@@ -25,6 +25,7 @@ type c02Vec struct {
 	Verdict string   `json:"verdict"`
 	Ctx     string   `json:"ctx"`
 	Lexs    []string `json:"lexs"`
+	Glue    bool     `json:"glue"`
 	Src     string   `json:"src"`  // derived inputs (truncations)
 	Kind    string   `json:"kind"` // "struct" | "lexeme" | "trunc"
 	Cfg     string   `json:"cfg"`
@@ -86,16 +87,20 @@ var c02Lexeme = map[string]string{
 	"le": "<=", "assign": "=", "decl": ":=", "and": "&&", "or": "||", "amp": "&", "not": "!", "pipe": "|", "comma": ",", "semi": ";",
 	"colon": ":", "question": "?", "lparen": "(", "rparen": ")", "lbrack": "[", "rbrack": "]", "space": " ", "newline": "\n", "kwif": "if",
 	"kwend": "end", "kwnil": "nil", "kwrange": "range", "kwcontent": "content", "symbol": "€", "control": "\x01", "badutf8": "\xff\xfe",
-	"nbsp": " ", "true": "true",
+	"nbsp": " ", "true": "true", "mbdigit": "٣", "mbspace": "\u2003",
 }
 
-func c02LexSource(ctx string, lexs []string, c c03Cfg) string {
+func c02LexSource(ctx string, lexs []string, glue bool, c c03Cfg) string {
 	var b strings.Builder
 	for i, l := range lexs {
-		if i > 0 {
+		if i > 0 && !glue {
 			b.WriteString(" ")
 		}
-		b.WriteString(c02Lexeme[l])
+		txt, known := c02Lexeme[l]
+		if !known {
+			panic("harness: unknown lexeme class " + l)
+		}
+		b.WriteString(txt)
 	}
 	body := b.String()
 	w := func(s string) string { return c.LD + " " + s + " " + c.RD }
@@ -257,13 +262,13 @@ func c02Worker(_ []string) int {
 			}()
 			select {
 			case <-done:
-			case <-time.After(5 * time.Second):
+			case <-time.After(c02HangDeadline):
 				ans.Hang = true
 			}
 			if !ans.Hang && ans.Panic == "" {
-				// goroutines must be gone (poll up to 1 s)
+				// goroutines must be gone (poll up to 5 s; a loaded machine may be slow to schedule the lexer's exit)
 				wait := 20 * time.Microsecond
-				for total := time.Duration(0); total < time.Second && runtime.NumGoroutine() > base; total += wait {
+				for total := time.Duration(0); total < 5*time.Second && runtime.NumGoroutine() > base; total += wait {
 					runtime.Gosched()
 					if runtime.NumGoroutine() <= base {
 						break
@@ -337,6 +342,13 @@ func (p *c02Pool) ask(rq c02Req) (c02Ans, bool) {
 
 var truncMaxToks = 3
 
+// generous, so that a loaded machine cannot turn a slow parse into a "hang"; real hangs are rare and
+// each costs the whole deadline, so a replay stops judging after c02MaxSlow of them (the check has failed by then)
+const (
+	c02HangDeadline = 10 * time.Second
+	c02MaxSlow      = 8
+)
+
 var c02ErrLine = regexp.MustCompile(`/t\.jet:(\d+)`)
 
 func c02Judge(v *c02Vec, src string, a c02Ans) (bool, string, string) {
@@ -344,9 +356,9 @@ func c02Judge(v *c02Vec, src string, a c02Ans) (bool, string, string) {
 	case a.Panic != "":
 		return false, "crash", "Parse panicked: " + a.Panic
 	case a.Hang:
-		return false, "hang", "Parse did not return within 5 s"
+		return false, "hang", "Parse did not return within 10 s"
 	case a.Leak > 0:
-		return false, "leak", fmt.Sprintf("%d goroutine(s) still running 1 s after Parse returned", a.Leak)
+		return false, "leak", fmt.Sprintf("%d goroutine(s) still running 5 s after Parse returned", a.Leak)
 	case a.NilBoth:
 		return false, "nilboth", "Parse returned neither a template nor an error"
 	case a.ViaLoader != "":
@@ -374,7 +386,11 @@ func c02Judge(v *c02Vec, src string, a c02Ans) (bool, string, string) {
 func c02Replay(cfgName string) func(i int, raw json.RawMessage) Result {
 	pool := &c02Pool{}
 	cfg := c03Cfgs[cfgName]
+	slow := 0
 	return func(i int, raw json.RawMessage) Result {
+		if slow >= c02MaxSlow {
+			return Result{OK: true}
+		}
 		var v c02Vec
 		if err := json.Unmarshal(raw, &v); err != nil {
 			return Result{Detail: "bad vector: " + err.Error()}
@@ -384,7 +400,7 @@ func c02Replay(cfgName string) func(i int, raw json.RawMessage) Result {
 		switch {
 		case v.Lexs != nil || v.Ctx != "":
 			kind = "lexeme"
-			full := c02LexSource(v.Ctx, v.Lexs, cfg)
+			full := c02LexSource(v.Ctx, v.Lexs, v.Glue, cfg)
 			srcs = []string{full}
 			// the same action cut off right behind its last lexeme, and behind one more blank
 			if k := strings.LastIndex(full, " "+cfg.RD); k > 0 {
@@ -416,12 +432,15 @@ func c02Replay(cfgName string) func(i int, raw json.RawMessage) Result {
 				return Result{Detail: "harness: cannot start worker"}
 			}
 			if good, why, detail := c02Judge(&vv, src, a); !good {
+				if why == "hang" || why == "leak" {
+					slow++
+				}
 				what := kind
 				if k > 0 {
 					what = "trunc"
 				}
 				sig := map[string]interface{}{"kind": why, "family": what, "cfg": cfgName, "ctx": v.Ctx,
-					"lexs": strings.Join(v.Lexs, " "), "verdict": v.Verdict}
+					"lexs": strings.Join(v.Lexs, " "), "glue": v.Glue, "verdict": v.Verdict}
 				return Result{Sig: sig, Key: cfgName + ":" + src, Observed: a, Detail: fmt.Sprintf("[%s] %q: %s", cfgName, src, detail)}
 			}
 		}
